@@ -1,7 +1,8 @@
 /-
   C02 — query results follow spec field collection and completion (dynamic schemas).
   Property theorems only (lemmas: AGV/Lemmas/ExecDynamic.lean, AGV/Lemmas/ExecDynamicData.lean,
-  AGV/Lemmas/ExecStatic.lean, AGV/Lemmas/ExecStaticData.lean).
+  AGV/Lemmas/ExecDynamicMerge.lean, AGV/Lemmas/ExecDynamicMergeExec.lean, AGV/Lemmas/ExecStatic.lean,
+  AGV/Lemmas/ExecStaticData.lean, AGV/Lemmas/ExecStaticMerge.lean, AGV/Lemmas/ExecStaticMergeExec.lean).
 
   OBLIGATION c02_key_order
   OBLIGATION c02_type_condition
@@ -23,30 +24,42 @@
   OBLIGATION c02_collect_spread_once
   OBLIGATION c02_data_partial_nodup
   OBLIGATION c02_data_partial_nodup_example
-  OPEN c02_data_mergeable_full
+  OBLIGATION c02_repeated_key_null_witness
+  OBLIGATION c02_repeated_key_null_repaired_example
+  OBLIGATION c02_merge_is_static
+  OBLIGATION c02_create_value_object_groups
+  OBLIGATION c02_exec_union_is_merge
+  OBLIGATION c02_data_mergeable_full
+  OBLIGATION c02_data_mergeable_example
 
   `c02_data_full` (the statement as first written, without hypotheses) is REFUTED, twice:
   `c02_data_full_needs_validity` (an unknown field under a repeated response key) and
   `c02_data_full_needs_typed_world` (a scalar value handed to an object-typed field).  What holds:
-  `c02_data_partial_nodup` (all worlds whose object-typed positions receive object identities — resolver
+  `c02_data_mergeable_full` — the full statement restated with the validity hypotheses, repeated
+  response keys included (all worlds whose object-typed positions receive object identities — resolver
   failures, `Value::Null`, nulls in non-null positions, ill-typed leaves, rejected custom scalars
-  included — for documents without repeated response keys); open: the restated full statement
-  `c02_data_mergeable_full` (repeated keys — the merge lemma).
+  included — at every fuel); its core is the MERGE LEMMA `c02_exec_union_is_merge`.
+  `c02_data_partial_nodup` is the earlier special case of distinct keys.  The model of the shared
+  `merge_value` follows the repaired code (a later `null` occurrence nulls the key, toggle
+  `mergeKeepsPartialOnNull`; witness `c02_repeated_key_null_witness`).
 -/
 import AGV.Lemmas.ExecDynamic
 import AGV.Lemmas.ExecDynamicData
+import AGV.Lemmas.ExecDynamicMerge
+import AGV.Lemmas.ExecDynamicMergeExec
 import AGV.Spec.ExecDyn
 
 namespace AGV.Props.C02
-open AGV.Core AGV.Model.ExecDynamic AGV.Lemmas.ExecDynamic AGV.Lemmas.ExecDynamicData
+open AGV.Core AGV.Model.ExecDynamic AGV.Lemmas.ExecDynamic AGV.Lemmas.ExecDynamicData AGV.Lemmas.ExecDynamicMerge
 open AGV.Lemmas.ExecStatic (newKeys keys_foldl_insertKV)
-open AGV.Lemmas.ExecStaticData (selsInert spreads IsObj SchemaOK eraseSt rootOf)
+open AGV.Lemmas.ExecStaticData (selsInert spreads IsObj SchemaOK eraseSt rootOf groupKV mergeAll schemaOK_of_wf)
+open AGV.Lemmas.ExecStaticMerge (mergeO)
 
 /-- The statement as first written: for every run-time assembled schema, document, variables and data
     world, the data of the executor model with no defect equals the data of the specification's
     execution algorithm (resolver values read as in Spec/ExecDyn.lean).  It carries no validity or
     typing hypothesis and is FALSE (`c02_data_full_needs_validity`, `c02_data_full_needs_typed_world`
-    below).  Proved instead: `c02_data_partial_nodup`; restated with hypotheses and open:
+    below).  Proved instead: `c02_data_partial_nodup` and, restated with hypotheses,
     `c02_data_mergeable_full`.  The equation itself is still checked per generated case by the judge. -/
 def c02_data_full : Prop :=
   ∀ (S : Schema) (d : Doc) (op : Option String) (vars : List (String × GValue)) (w : World),
@@ -59,7 +72,7 @@ def c02_data_full : Prop :=
 theorem c02_key_order (D : Defects) (fuel : Nat) (kvs : List (String × GValue)) :
     ∃ fs, createValueObject D fuel kvs = .obj fs ∧ fs.map (·.1) = newKeys [] (kvs.map (·.1)) := by
   refine ⟨_, rfl, ?_⟩
-  simpa using keys_foldl_insertKV (merge D.nestedListMergeShallow fuel) kvs []
+  simpa using keys_foldl_insertKV (merge D.nestedListMergeShallow D.mergeKeepsPartialOnNull (4 * fuel)) kvs []
 
 /-- "fragments applied exactly when the runtime object type satisfies their type condition":
     on a schema where the runtime type is an object whose `implements` names interfaces only, the
@@ -349,25 +362,133 @@ example : (run Defects.none Ex.S1 Ex.doc1 none [] Ex.w1 10).val = some (.obj [("
     ("e", .str "X"), ("ev", .null), ("tok", .str "t"),
     ("grid", .list [.list [.int 1, .null], .null])]) := by rfl
 
--- ------------------------------------------------------------------ stage 3 (open): repeated response keys
+-- ------------------------------------------------------------------ stage 3: repeated response keys
 
-/-- OPEN — the full statement, restated with the hypotheses found necessary (validity in the sense
-    of `mergeableKeys`: every selected field exists, occurrences of one response key name the same
-    field with the same arguments, recursively on the merged sub-selections; a consistent schema
-    description; directives that do not act; object-typed positions receive object identities): the
-    executor model without defects returns the specification's data, in every such world (faults
-    included), once the fuel covers the merge depth (`3 * fuelBound`: the model of `insert_value`
-    spends fuel per list level).  `c02_data_partial_nodup` is the case of pairwise distinct keys.
-    Missing: the merge lemma (`collect` over a concatenation, `create_value_object` = group-then-merge
-    as in `c01_create_value_object_groups`, then associativity/idempotence of `merge` on values
-    completed from one resolver result — a SameShape invariant). -/
-def c02_data_mergeable_full : Prop :=
-  ∀ (S : Schema) (d : Doc) (opName : Option String) (raw : List (String × GValue)) (w : World),
-    ∀ fuel ≥ 3 * AGV.Spec.Exec.fuelBound d,
+/-- `{ o { a } o { nn } }` where `nn: Int!` receives `Value::Null`: the LATER occurrence of `o` completes to
+    null (the error is captured at the nullable `o`).  `merge_value` as pinned keeps the object of the
+    earlier occurrence; one execution of the merged selection set gives `{"o": null}`.  The code is shared
+    with the static executor and was repaired there (fix 09175af, finding
+    C03-repeated-key-error-keeps-partial-object); through the dynamic executor the deviation cannot be
+    observed as long as `noNullableCapture` holds (every error nulls the whole response).  This is why the
+    statement `c02_data_mergeable_full` was FALSE of the model as it stood before the toggle existed. -/
+def wNullNN : World := { entries := [((0, "o"), .obj "O" 1), ((1, "a"), .leaf (.int 5)), ((1, "nn"), .leaf .null)] }
+def docKeep : Doc := qdoc [fld "o" [fld "a"], fld "o" [fld "nn"]]
+
+theorem c02_repeated_key_null_witness :
+    (run { mergeKeepsPartialOnNull := true } S0 docKeep none [] wNullNN 30).val = some (.obj [("o", .obj [("a", .int 5)])]) ∧
+    (AGV.Spec.ExecDyn.run S0 docKeep none [] wNullNN 30).val = some (.obj [("o", .null)]) ∧
+    3 * AGV.Spec.Exec.fuelBound docKeep ≤ 30 := by
+  refine ⟨by rfl, by rfl, by simp [AGV.Spec.Exec.fuelBound, AGV.Spec.Exec.selCount, docKeep, qdoc, fld]⟩
+
+theorem c02_repeated_key_null_repaired_example :
+    (run Defects.none S0 docKeep none [] wNullNN 30).val = (AGV.Spec.ExecDyn.run S0 docKeep none [] wNullNN 30).val := by rfl
+
+/-- with both merge toggles off, the model's `merge_value` is the static model's (the code is shared) -/
+theorem c02_merge_is_static (keep : Bool) (n : Nat) : merge false keep n = AGV.Model.ExecStatic.merge keep n :=
+  merge_eq_static keep n
+
+/-- first step of the merge lemma, for EVERY list of field results (no shape hypothesis): the object
+    built by `create_value_object`/`insert_value` is "group the results by response key in order of
+    first occurrence, then fold `merge_value` over each key's values in occurrence order" — the model's
+    counterpart of the specification's grouping of field occurrences -/
+theorem c02_create_value_object_groups (D : Defects) (fuel : Nat) (kvs : List (String × GValue)) :
+    createValueObject D fuel kvs =
+      .obj ((groupKV kvs).map (fun g =>
+        (g.1, mergeAll (merge D.nestedListMergeShallow D.mergeKeepsPartialOnNull (4 * fuel)) g.2))) :=
+  createValueObject_group D fuel kvs
+
+/-- THE MERGE LEMMA (specification side, `Spec.ExecDyn`'s reading of schema and world).  Executing the
+    union `a ++ b` of two selection sets on an object is the `merge_value` of executing `a` and executing `b`
+    (objects key by key in order of first occurrence, lists item by item, a `null` on either side wins, a
+    propagating error on either side propagates) — for every object, depth, path and every merge depth
+    `N ≥ 4·fuel`, when the union is mergeable (`DMKP`, the proposition behind `mergeableKeys`: every selected
+    field exists, occurrences of one response key name one field with one argument list, recursively on the
+    merged sub-selections; no fragment spread twice) and no directive acts. -/
+theorem c02_exec_union_is_merge (c : Model.ExecDynamic.Ctx) (H : DataHyps c) (fuel : Nat) (rt : String) (id : Nat)
+    (a b : List Sel) (path : List PathSeg) (N : Nat) (hrt : IsObj c.S rt)
+    (ha : selsInert c.vars a = true) (hb : selsInert c.vars b = true) (hmk : DMKP c fuel rt (a ++ b)) (hN : 4 * fuel ≤ N) :
+    (AGV.Spec.Exec.execSet (sc c) fuel rt id (a ++ b) path).val =
+      mergeO N (AGV.Spec.Exec.execSet (sc c) fuel rt id a path).val (AGV.Spec.Exec.execSet (sc c) fuel rt id b path).val :=
+  dexecSet_merge c H fuel rt id a b path N hrt ha hb hmk hN
+
+/-- DATA EQUALITY, the full statement restated with the hypotheses found necessary (validity in the sense
+    of `mergeableKeys`: every selected field exists, occurrences of one response key name the same field
+    with the same arguments — `argsSame`, structural equality —, recursively on the merged sub-selections,
+    list depth ≤ 3 for repeated keys (the depth `merge_value` is modelled to: four units of merge fuel per
+    selection level); a consistent schema description; directives that do not act; object-typed positions
+    receive object identities): the executor model without defects returns the specification's data, in
+    every such world (resolver failures, `Value::Null` incl. non-null positions, ill-typed leaves, values a
+    validator rejects included) and at EVERY fuel.  The statement as first restated (`o'.args == o.args`,
+    `fuel ≥ 3 * fuelBound d`, merge fuel = selection depth, no `null` arm in the model of `merge_value`)
+    was vacuous in its argument hypothesis and false of the model then: `c02_repeated_key_null_witness`.
+    `c02_data_partial_nodup` is the case of pairwise distinct keys. -/
+theorem c02_data_mergeable_full :
+  ∀ (S : Schema) (d : Doc) (opName : Option String) (raw : List (String × GValue)) (w : World) (fuel : Nat),
     (∀ op, AGV.Spec.Exec.selectOp d opName = some op →
       IsObj S (rootOf S op) ∧ DataHyps (runCtx S d op raw w) ∧
       selsInert (AGV.Spec.Exec.coerceVars op.vars raw) op.sels = true ∧
       mergeableKeys (runCtx S d op raw w) fuel (rootOf S op) op.sels = true) →
-    (Model.ExecDynamic.run Defects.none S d opName raw w fuel).val = (AGV.Spec.ExecDyn.run S d opName raw w fuel).val
+    (Model.ExecDynamic.run Defects.none S d opName raw w fuel).val = (AGV.Spec.ExecDyn.run S d opName raw w fuel).val :=
+  fun S d opName raw w fuel H => run_val_eq_mergeable S d opName raw w fuel H
+
+def f0 (al : Option String) (n : String) (ss : List Sel) : Sel := Sel.field al n [] [] ss Ex.p0
+def opRep : OpDef := { ty := .query, name := none, vars := [], dirs := [], sels := [
+  f0 none "obj" [f0 none "name" []],
+  f0 none "obj" [f0 none "a" [], Sel.spread "F" [] Ex.p0],
+  f0 (some "x") "obj" [f0 none "nn" []],
+  f0 (some "x") "obj" [f0 none "a" []],
+  f0 (some "y") "obj" [f0 none "a" []],
+  f0 (some "y") "obj" [f0 none "nn" []],
+  f0 none "items" [f0 none "a" []],
+  f0 none "items" [f0 none "name" [], f0 none "nn" []],
+  f0 none "node" [f0 none "__typename" []],
+  f0 none "node" [Sel.inline (some "P") [] [f0 (some "nm") "name" []] Ex.p0],
+  f0 none "grid" [], f0 none "grid" []] }
+def docRep : Doc := { ops := [opRep], frags := [Ex.fragF] }
+
+/-- `{ obj { name } obj { a ...F } x: obj { nn } x: obj { a } y: obj { a } y: obj { nn } items { a } items { name nn }
+       node { __typename } node { ... on P { nm: name } } grid grid }` over `Ex.S1`/`Ex.w1`: every top-level key
+    occurs twice (an object with a fragment; an aliased object whose FIRST occurrence is nulled by the
+    `Value::Null` in `nn: Int!`, one whose LATER occurrence is; a list of non-null objects with a failing
+    resolver below; an interface with a type-conditioned fragment; a nested list of scalars), `name` and `a`
+    repeat inside the merged `obj`.  The hypotheses of `c02_data_mergeable_full` hold (and `noRepeatedKeys`
+    does not) -/
+theorem c02_data_mergeable_example :
+    (∀ op, AGV.Spec.Exec.selectOp docRep none = some op →
+      IsObj Ex.S1 (rootOf Ex.S1 op) ∧ DataHyps (runCtx Ex.S1 docRep op [] Ex.w1) ∧
+      selsInert (AGV.Spec.Exec.coerceVars op.vars []) op.sels = true ∧
+      mergeableKeys (runCtx Ex.S1 docRep op [] Ex.w1) 10 (rootOf Ex.S1 op) op.sels = true) ∧
+    (∀ op, AGV.Spec.Exec.selectOp docRep none = some op →
+      noRepeatedKeys (runCtx Ex.S1 docRep op [] Ex.w1) 10 (rootOf Ex.S1 op) op.sels = false) := by
+  constructor
+  · intro op hop
+    have : op = opRep := by simpa [AGV.Spec.Exec.selectOp, docRep] using hop.symm
+    subst this
+    have hf := fields_of_wf Ex.S1 (by decide)
+    have hw := world_of_ok (runCtx Ex.S1 docRep opRep [] Ex.w1) (by decide)
+    exact ⟨⟨Ex.tQuery, rfl, rfl⟩,
+      { noDefect := rfl
+        schema := schemaOK_of_wf _ (by decide)
+        dyn := dynSchemaOK_of_wf _ (by decide)
+        frags := by decide
+        family := hf.1
+        registered := hf.2
+        typed := hw.1
+        args := hw.2 },
+      by decide, by decide⟩
+  · intro op hop
+    have : op = opRep := by simpa [AGV.Spec.Exec.selectOp, docRep] using hop.symm
+    subst this
+    decide
+
+example : (run Defects.none Ex.S1 docRep none [] Ex.w1 10).val = (AGV.Spec.ExecDyn.run Ex.S1 docRep none [] Ex.w1 10).val :=
+  c02_data_mergeable_full Ex.S1 docRep none [] Ex.w1 10 c02_data_mergeable_example.1
+
+/-- the instance is not vacuous: merged objects, keys nulled by their first / by a later occurrence, merged list items -/
+example : (run Defects.none Ex.S1 docRep none [] Ex.w1 10).val = some (.obj [
+    ("obj", .obj [("name", .str "x"), ("a", .int 5)]), ("x", .null), ("y", .null),
+    ("items", .list [.obj [("a", .null), ("name", .null), ("nn", .int 7)], .obj [("a", .null), ("name", .null), ("nn", .int 7)]]),
+    ("node", .obj [("__typename", .str "P"), ("nm", .str "p")]),
+    ("grid", .list [.list [.int 1, .null], .null])]) := by rfl
 
 end AGV.Props.C02
